@@ -24,12 +24,13 @@ import (
 )
 
 type Fault struct {
-	K   string `json:"k"`             // fserr shortwrite crash net-connect net-status net-bodyerr net-truncate net-flip execfail
+	K   string `json:"k"`             // fserr fserr-remove shortwrite crash net-connect net-status net-bodyerr net-truncate net-flip execfail
 	At  int    `json:"at"`            // index of the task's syscall (fs/net) or sim point (crash)
 	Arg int    `json:"arg,omitempty"` // errno selector / byte offset
 }
 
 type World struct {
+	nrem    map[int]int // removals so far, per task
 	S       *sim.Sim
 	Sandbox string // nothing may ever be touched outside this directory
 	// Allowed reports whether task may create/modify/delete path (cleaned, absolute).
@@ -98,6 +99,22 @@ func (w *World) enter(op, path string, canFail bool) error {
 	s.Logf("  t%d sys#%d %s %s", t, n, op, w.Rel(path))
 	if s.Phase2() {
 		return nil
+	}
+	if op == "removeall" || op == "remove" {
+		// fserr-remove: the Arg-th removal of the task fails (clean-up code is where
+		// results tend to be ignored)
+		if w.nrem == nil {
+			w.nrem = map[int]int{}
+		}
+		k := w.nrem[t]
+		w.nrem[t] = k + 1
+		for _, f := range w.Faults[t] {
+			if f.K == "fserr-remove" && f.Arg == k && canFail {
+				w.Fired["fs-error-on-removal"]++
+				s.Logf("  FAULT t%d %s %s fails with %v", t, op, w.Rel(path), syscall.EIO)
+				return &fs.PathError{Op: op, Path: path, Err: syscall.EIO}
+			}
+		}
 	}
 	for _, f := range w.Faults[t] {
 		if f.At == n && canFail {
